@@ -286,6 +286,15 @@ class Runner:
                 return
             b = hb[st["idx"] % len(hb)]
             target, call = b, (lambda: b.rotate(math.radians(60.0 * st["k"])))
+        elif op == "adjust":
+            # a block-level composition change (what a fuel-management or depletion step does)
+            from armi.reactor.flags import Flags
+
+            fb = [b for b in blks if b.hasFlags(Flags.FUEL)]
+            if not fb:
+                return
+            b = fb[st["idx"] % len(fb)]
+            target, call = b, (lambda: b.adjustDensity(st["factor"], ["U235", "U238"]))
         else:
             b = blks[st["idx"] % len(blks)]
             target, call = b, (lambda: b.setHeight(b.getHeight() * st["factor"]))
@@ -305,6 +314,8 @@ class Runner:
         op = st["op"]
         r = self.r
         if self.readonly and op in ("ndens", "temp", "height", "rotate"):
+            if op == "ndens" and st["idx"] % 3 == 0:
+                st = dict(st, op="adjust")
             self.readonly_attempt(st)
             return
         if op == "setp":
@@ -436,6 +447,12 @@ class Runner:
         elif op == "readonly":
             from armi.reactor.reactorParameters import makeParametersReadOnly
 
+            if st.get("detailed", True):
+                # blocks carry a detailed composition vector (set by depletion) when the model is frozen
+                import numpy as np
+
+                for j, b in enumerate(c06.objects_at_level(r, "block")):
+                    b.p.detailedNDens = np.array([1e-3, 1e-4 * (j + 1)])
             makeParametersReadOnly(r)
             self.readonly = True
             self.probe("readonly_switch")
